@@ -5,7 +5,6 @@ import numpy as np
 from .. import core, gen
 
 ID = 'C19'
-FOUNDATIONS = ['harness.foundation.concurrent', 'harness.foundation.soak']   # the property's own functions under concurrent calls (validation; proofs in C12)
 LEVEL = 'proof'
 RULE = ('corpus; cooccurence: integer images of 2-3 dimensions with 1..64 grey levels (and the dtype maximum) x every '
         'direction (4/13) x distances 1-3 x symmetric on/off x output None / preallocated / one too small; haralick: '
